@@ -551,7 +551,12 @@ example : lastWrite (elfWrites .repaired exCfg { exImg with phdrs := [⟨PT_LOAD
 
 example : notInSlots exCfg.ptr (elfSlots exCfg exImg) (32 + 1) := by decide
 
--- a clobbering layout (second segment's page comes from another file page) is not `LoadableOK`
-example : ¬ LoadableOK exCfg { exImg with phdrs := [⟨PT_LOAD, 0, 32, 20, 20⟩, ⟨PT_LOAD, 40, 56, 8, 8⟩] } := by decide
+-- a clobbering layout (second segment's page comes from another file page) is not `LoadableOK` …
+def exClobber : ElfImage := { exImg with phdrs := [⟨PT_LOAD, 0, 32, 20, 20⟩, ⟨PT_LOAD, 40, 56, 8, 8⟩] }
+example : ¬ LoadableOK exCfg exClobber := by decide
+-- … and that clause of the hypothesis cannot be dropped: there the page head of the second segment
+-- (file bytes 32 … 39) overlays bytes 48 … 51 of the first one, which the file maps to 16 … 19
+example : lastWrite (elfWrites .repaired exCfg exClobber) 49 = some (.raw 33) := by decide
+example : exClobber.file[0 + 17]? = some 17 := by decide
 
 end Amoco.Loader.Props
